@@ -103,11 +103,11 @@ pub fn bench() {
     let r = f.w.call_raw(fil_actors_runtime::CRON_ACTOR_ID, fil_actors_runtime::STORAGE_MARKET_ACTOR_ID, fil_actor_market::Method::CronTick as u64, &fvm_shared::econ::TokenAmount::from_atto(0), None);
     println!("cron over 600k epochs: {:?} ok={}", t.elapsed(), r.ok());
     // system tick cost: one cron-active miner with a sector
-    let case = engines::sys::ops::SysCase { n_miners: 1, proofs: vec![0], min_power: 1, poor_reward: false, ops: vec![engines::sys::ops::Op::Onboard { m: 0, n: 2, life_days: 0 }] };
+    let case = engines::sys::ops::SysCase { n_miners: 1, proofs: vec![0], min_power: 1, poor_reward: false, whale: false, funding: vec![], ops: vec![engines::sys::ops::Op::Onboard { m: 0, n: 2, life_days: 0 }] };
     let mut stats = crate::common::CaseStats::default();
     stats.known_sigs = std::sync::Arc::new(["vesting-funds-without-deadline-cron", "create-miner-deposit-missing-from-pledge-total"].iter().map(|s| s.to_string()).collect());
     let mut s = engines::sys::ops::Sys::new(&case, &mut stats, &std::env::var("BENCH_FOCUS").unwrap_or("C05".into())).unwrap();
-    s.cushion().unwrap();
+    s.cushion(false).unwrap();
     s.step(0, &case.ops[0]).unwrap();
     let t = std::time::Instant::now();
     let e0 = s.w.v.epoch();
